@@ -454,4 +454,8 @@ def run(ctx, ck):
     ck.rule('R-COUNT.end-index', 'predicted index of the end pulses == number of pulses created before them (all end states)')
     ncases = check_end_index(ctx, ck)
     ck.floor('end-state cases', ncases, 30)
+    # an attachment to a pulse is never dropped because another object has a pulse in the same row (shared with C08)
+    ck.rule('R-EXH.attach', 'add_pulse attaches the pulse it is given, skipped only for this very pulse')
+    from .C08 import check_add_pulse
+    check_add_pulse(ctx, ck, 'R-EXH.attach')
     ck.undecided += ['junction pulse belongs to the later-tagged object for every topology (runtime)']
